@@ -12,6 +12,9 @@ CHECKS = {
  "C03": ("enumx", "4 C03", "bounded-exhaustive enumeration of complete browser flows (provider answer shapes x configurations x targets) on the real handler with a redirect-following driver",
          "Full product of 48 compliant provider answer shapes x 48 configurations x targets: one authorization request, one code exchange, post-callback Location equals the URL first requested, then OK with the provider's tokens, and every tail request inside token lifetime is OK with no further authorization request.",
          "Handler-level flows; trigger rules and loader are covered at server level elsewhere; token lifetime 60 s virtual."),
+ "C04": ("seqx+schedx", "4 C04", "explicit-state BFS over multi-browser/attacker callback histories against a strict ledger-keeping provider, plus exhaustive interleavings of concurrent callbacks",
+         "Every authorization-code token request in every explored history/schedule is justified by the login state issued to the session named by the cookie (state equality incl. near-miss/duplicated parameters, stored verifier matching the sent challenge, redirect_uri, client credentials, code); a consumed login state never causes a second exchange or an authenticated session.",
+         "Overlapping identical callbacks may both exchange; with duplicated parameters any occurrence may count."),
  "C05": ("seqx", "4 C05", "explicit-state BFS with the real random id generator; ghost sets of presented/issued ids; RFC 6265 Set-Cookie parser as oracle",
          "In every explored history (depth 6/7, 3 cookie prefixes, memory+Redis) each login redirect issues an id never presented or issued before and leaves nothing under the presented id; tokens/login state are only stored under issued ids; every Set-Cookie is __Host-, Path=/, no Domain, Secure, HttpOnly, SameSite; logout expires it.",
          "Handler-level; prefixes are RFC 6265 tokens."),
@@ -42,6 +45,12 @@ CHECKS = {
  "C17": ("enumx", "4 C17", "deviation-bounded enumeration of configuration documents (singles+pairs over 3 base shapes, triples thorough, fixture member deletions) through the real loader with an independent post-condition predicate",
          "Every generated document (55k quick / 117k thorough) is either rejected with an error or yields a Config satisfying the safety predicate (resolved filters, openid scope, non-root callback, distinct logout path, client id/secret, ID-token header, endpoints or discovery, <=1 OIDC filter per chain, scalar merge = override-else-default); no panic.",
          "Repeated fields are not compared in the merge check; syntactically broken JSON is left to the decoder."),
+ "C19": ("seqx", "4 C19", "explicit-state BFS over Secret events and Reconcile deliveries on the real SecretController (controller-runtime fake client) against a reference map",
+         "For every explored history (depth 4 quick / 5 thorough over 4 Secret objects, 3 or all 28 filter-to-secret assignments) every filter's client secret equals the last non-empty value reconciled while not deleting for the Secret it references, literal filters and other namespaces' Secrets never change anything, the token endpoint sees the current value, and cross-namespace references are refused at start-up.",
+         "Reconcile deliveries are explicit events; informer machinery not modelled."),
+ "C20": ("enumx+seqx+schedx", "4 C20", "full product of TLS settings judged by real handshakes; BFS over CA rotation histories with a virtual ticker; exhaustive interleavings of concurrent loads and rotation",
+         "108 settings combinations trust exactly the configured CA (or everything only with skip and no CA); in every rotation history (depth 5/7) every client trusts the content its watcher last saw after a tick, equal settings share one *tls.Config, tickers never outnumber watched settings; all interleavings of concurrent first loads / load vs rotation end with shared configs that follow the rotation.",
+         "System roots only negatively; virtual ticker instead of randomised timing."),
  "C07": ("enumx", "4 C07", "bounded-exhaustive enumeration of rule sets x targets against a reference evaluator on the real ExtAuthZFilter.Check",
          "All rule sets of the pattern grammar (<=1/<=1 patterns per rule + pairs quick; <=2/<=2 thorough) x 84 targets: verdict equals the documented function of the path and is invariant under any ?query/#fragment tail.",
          "Alphabet of 37 patterns / 84 targets; 'randomly beyond' not claimed."),
